@@ -151,6 +151,10 @@ func (f *Frame) binop(x *ssa.BinOp, st *State, reach Term) Value {
 	if a.Sort == sInt {
 		switch op {
 		case token.ADD:
+			if phi, ok := x.X.(*ssa.Phi); ok && phi.Comment == "rangeindex" {
+				// the hidden index of a range loop stays in [-1, len): its increment cannot wrap
+				return T(sInt, "(+ %s %s)", a.S, b.S)
+			}
 			return f.vc.define("add", T(sInt, "%s", wrapInt(fmt.Sprintf("(+ %s %s)", a.S, b.S), signed)))
 		case token.SUB:
 			return f.vc.define("sub", T(sInt, "%s", wrapInt(fmt.Sprintf("(- %s %s)", a.S, b.S), signed)))
@@ -353,6 +357,16 @@ func (f *Frame) convert(v Term, from, to types.Type) Value {
 			}
 		}
 		return v
+	}
+	if v.Sort == sRef && ts == sInt {
+		// unsafe.Pointer -> uintptr: the address; distinct objects have distinct addresses
+		if b, ok := to.Underlying().(*types.Basic); ok && b.Kind() == types.Uintptr {
+			f.vc.declareFunOnce("addr.of", []string{sInt}, sInt)
+			r := T(sInt, "(addr.of %s)", v.S)
+			f.assumeOnce(T(sBool, "(and (<= 0 %s) (< %s %s))", r.S, r.S, two64))
+			f.assumeOnce(T(sBool, "(forall ((p!q Int) (q!q Int)) (! (=> (= (addr.of p!q) (addr.of q!q)) (= p!q q!q)) :pattern ((addr.of p!q) (addr.of q!q))))"))
+			return r
+		}
 	}
 	fb, fsigned, fIsInt := intInfo(from)
 	tb, tsigned, tIsInt := intInfo(to)
@@ -557,6 +571,15 @@ func (f *Frame) typeAssert(x *ssa.TypeAssert, st *State, reach Term) {
 	if x.CommaOk {
 		// on failure the value is the zero value
 		zero := f.zeroOf(at)
+		if strings.HasPrefix(ts, "Seq_") {
+			// sequences are indexed under quantifiers: a constant (equal to the payload
+			// when the assertion holds) matches patterns where an ite term would not
+			c := f.vc.freshConst("ta", ts)
+			f.vc.assume(tImp(ok, tEq(c, val)))
+			f.vc.assume(tImp(tNot(ok), tEq(c, zero)))
+			f.vals[x] = Tuple{c, ok}
+			return
+		}
 		f.vals[x] = Tuple{f.vc.define("ta", tIte(ok, val, zero)), ok}
 		return
 	}
@@ -604,8 +627,8 @@ func (f *Frame) toWord(i Term, t types.Type) Term {
 
 // toInt turns a word term into an Int index for SMT arrays.
 func (f *Frame) toInt(i Term) Term {
-	if i.Sort == sInt {
-		return i
+	if i.Sort == sInt || i.Sort == sRef || i.Sort == sIfc || i.Sort == sErr || i.Sort == sFn {
+		return i // all of these are Int underneath
 	}
 	// small constant?
 	var v uint64
@@ -737,15 +760,26 @@ func (f *Frame) subSeq(s Term, lo, hi Term) Term {
 	ws := f.vc.sorts.wordSort()
 	fn := "sub." + sortTag(s.Sort)
 	f.vc.declareFunOnce(fn, []string{s.Sort, ws, ws}, s.Sort)
-	r := T(s.Sort, "(%s %s %s %s)", fn, s.S, lo.S, hi.S)
+	app := T(s.Sort, "(%s %s %s %s)", fn, s.S, lo.S, hi.S)
+	if c, ok := f.vc.subCache[app.S]; ok {
+		return c
+	}
+	// the quantified axioms below use the result in their patterns: name it by a
+	// constant so that no defined (macro) symbol ends up inside a pattern
+	r := f.vc.freshConst("sub", s.Sort)
+	f.vc.assumeOwned(r, tEq(r, app))
+	if f.vc.subCache == nil {
+		f.vc.subCache = map[string]Term{}
+	}
+	f.vc.subCache[app.S] = r
 	if s.Sort == sStr {
-		f.assumeOnce(tEq(f.lenOf(r), f.wSub(hi, lo)))
+		f.vc.assumeOwned(r, tEq(f.lenOf(r), f.wSub(hi, lo)))
 		return r
 	}
-	f.assumeOnce(tEq(f.seqLenRaw(r), f.wSub(hi, lo)))
+	f.vc.assumeOwned(r, tEq(f.seqLenRaw(r), f.wSub(hi, lo)))
 	k := Term{"k!q", ws}
 	guard := tAnd(f.wLe(f.wordLit(0), k), f.wLt(k, f.wSub(hi, lo)))
-	f.assumeOnce(T(sBool, "(forall ((k!q %s)) (! (=> %s (= %s %s)) :pattern (%s)))", ws, guard.S, f.seqAt(r, k).S, f.seqAt(s, f.wAdd(lo, k)).S, f.seqAt(r, k).S))
+	f.vc.assumeOwned(r, T(sBool, "(forall ((k!q %s)) (! (=> %s (= %s %s)) :pattern (%s)))", ws, guard.S, f.seqAt(r, k).S, f.seqAt(s, f.wAdd(lo, k)).S, f.seqAt(r, k).S))
 	return r
 }
 
@@ -769,8 +803,8 @@ func (f *Frame) execLookup(x *ssa.Lookup, st *State, reach Term) {
 		m := f.term(x.X, st)
 		k := f.term(x.Index, st)
 		hk, vk, _, vs := f.mapKeys(xt)
-		has := T(sBool, "(select (select %s %s) %s)", st.get(hk).S, m.S, k.S)
-		val := T(vs, "(select (select %s %s) %s)", st.get(vk).S, m.S, k.S)
+		has := f.vc.sel2(st.get(hk), m, k, sBool)
+		val := f.vc.sel2(st.get(vk), m, k, vs)
 		has = tAnd(T(sBool, "(not (= %s 0))", m.S), has)
 		val = f.vc.define("mv", tIte(has, val, f.zeroOf(xt.Elem())))
 		f.readFacts(val, xt.Elem(), st)
@@ -803,8 +837,8 @@ func (f *Frame) mapUpdate(x *ssa.MapUpdate, st *State, reach Term) {
 	f.frameCheck(hk, m, st, reach, x.Pos())
 	oh := st.get(hk)
 	ov := st.get(vk)
-	st.set(hk, f.vc.define(hk, T(oh.Sort, "(store %s %s (store (select %s %s) %s true))", oh.S, m.S, oh.S, m.S, k.S)))
-	st.set(vk, f.vc.define(vk, T(ov.Sort, "(store %s %s (store (select %s %s) %s %s))", ov.S, m.S, ov.S, m.S, k.S, v.S)))
+	st.set(hk, f.vc.store2Term(hk, oh, m, k, tTrue()))
+	st.set(vk, f.vc.store2Term(vk, ov, m, k, v))
 }
 
 func (f *Frame) mapDelete(mt *types.Map, m, k Term, st *State, reach Term, p token.Pos) {
@@ -873,14 +907,14 @@ func (f *Frame) makeSlice(x *ssa.MakeSlice, st *State, reach Term) Value {
 		r := f.allocRef(st, "mk")
 		key := f.compKey("E:", sortTag(zero.Sort), zero.Sort)
 		old := st.get(key)
-		st.set(key, f.vc.define(key, T(old.Sort, "(store %s %s ((as const (Array Int %s)) %s))", old.S, r.S, zero.Sort, zero.S)))
+		st.set(key, f.vc.define(key, T(old.Sort, "(store %s %s %s)", old.S, r.S, f.zeroOfSort("(Array Int "+zero.Sort+")", types.NewArray(st2.Elem(), 0)).S)))
 		return f.vc.define("mk", T(sSl, "(mk.Sl %s 0 %s %s)", r.S, n.S, c.S))
 	}
 	r := f.vc.freshConst("mk", ts)
 	f.vc.assume(tEq(f.seqLenRaw(r), n))
 	ws := f.vc.sorts.wordSort()
 	k := Term{"k!q", ws}
-	f.vc.assume(T(sBool, "(forall ((k!q %s)) (! (= %s %s) :pattern (%s)))", ws, f.seqAt(r, k).S, zero.S, f.seqAt(r, k).S))
+	f.vc.assumeOwned(r, T(sBool, "(forall ((k!q %s)) (! (= %s %s) :pattern (%s)))", ws, f.seqAt(r, k).S, zero.S, f.seqAt(r, k).S))
 	f.vc.declareFunOnce("cap."+ts, []string{ts}, ws)
 	f.vc.assume(tEq(T(ws, "(cap.%s %s)", ts, r.S), c))
 	f.vc.declareFunOnce("isnil."+ts, []string{ts}, sBool)
